@@ -124,11 +124,12 @@ func (m *CPU) Run(app risc.Application) (int, error) {
 			if resp.err != nil {
 				return 0, resp.err
 			}
-			if resp.flush {
+			if resp.flush && (!flush || resp.sequenceID < sequenceID) {
+				// The oldest mispredicted branch decides where execution resumes
 				sequenceID = resp.sequenceID
+				pc = resp.pc
 			}
 			flush = flush || resp.flush
-			pc = max(pc, resp.pc)
 			ret = ret || resp.isReturn
 		}
 
